@@ -503,8 +503,8 @@ func runC14_6(c *core.Ctx) {
 		cv := flow.ConstOf(f.Info, be.Y)
 		return cv != nil && cv.ExactString() == "1"
 	}
-	isAccessor := func(e ast.Expr, name string) bool {
-		call, ok := ast.Unparen(e).(*ast.CallExpr)
+	isAccessor := func(e ast.Expr, name string) bool { // cgfd.ConnMatrixRow(), possibly through a local that names it
+		call, ok := seeThrough(f, e).(*ast.CallExpr)
 		if !ok {
 			return false
 		}
